@@ -582,13 +582,14 @@ def run(chk) -> None:
         # values are consulted only after an optimal solve; a faulted solve leaves nothing behind that a later solve would return
         if not c01.fact_first(chk, "milp-readback-optimal", fi.where, c01e.unsolved_readback_fact(chk, "milp-readback-optimal")):
             check_readback_guard_pinned(chk, fi, fm)
-        why = c01e.history_fact(chk, ("dot_bracket", "fcfs", "all_dot_brackets"), rule="milp-history", process=True)
-        if why is not None:
-            chk.ok("milp-history", "-", f"call histories not evaluable ({why[:120]})")
     else:
         env, R = c01.regions_term(chk, fi)
         check_model_pinned(chk, fi, fm, inl, env, R)
         check_readback_guard_pinned(chk, fi, fm)
+    # whatever is kept between calls (on the object or in the process) must not change what a later solve returns
+    why = c01e.history_fact(chk, ("dot_bracket", "fcfs", "all_dot_brackets"), rule="milp-history", process=True)
+    if why is not None:
+        chk.ok("milp-history", "-", f"call histories not evaluable ({why[:120]})")
     c01.check_stems(chk)
     c01.check_regions(chk)
     c01.check_fill(chk)
